@@ -231,6 +231,26 @@ impl InputList {
             events: self.events[start..end].to_vec(),
         }
     }
+
+    /// An svgdx document is written without its DOCTYPE, so a reference to an entity
+    /// declared there would be left undeclared in content that is copied as written.
+    pub fn check_doctype_entities(&self) -> Result<()> {
+        if !self.iter().any(|ev| matches!(ev.event, Event::DocType(_))) {
+            return Ok(());
+        }
+        for ev in self.iter() {
+            if matches!(ev.event, Event::Text(_) | Event::Start(_) | Event::Empty(_)) {
+                let content = String::from_utf8(ev.event.as_ref().to_vec())?;
+                if let Some(r) = invalid_reference(&content, false) {
+                    return Err(SvgdxError::ParseError(format!(
+                        "XML error near line {}: '{r}' needs the DOCTYPE, which an svgdx document does not keep",
+                        ev.line
+                    )));
+                }
+            }
+        }
+        Ok(())
+    }
 }
 
 #[derive(Debug, Clone)]
